@@ -10,8 +10,8 @@ from harness import fw
 META = {
     "id": "C17",
     "technique": "Coq proof (host LCD model vs firmware LCD model over the mock's DDRAM: refinement by induction on the text, progress-bar arithmetic, backlight/glyph invariants over all histories) + extracted-model correspondence with the real LCD class and with the real transpiled firmware run under the mock core + property oracle firmware-vs-host",
-    "level_text": "Theorems C17_* (coq/Props/C17.v) are proved for all texts, alignments, clear flags, in-range rows/columns and all geometries that fit one HD44780 about Gallina models of Displays/LCD.py and of the emitted LCD C++ (helper templates + per-node code) on the mock LiquidCrystal DDRAM; both models are run against the real LCD object and the real parse+emit output compiled with g++ on generated op sequences (geometry sweep 1..40 x 1..4, both wirings), and the property relation is evaluated directly firmware-vs-host.",
-    "level_note": "Trusted: Coq kernel, extraction, OCaml driver, mock Arduino core + mock LiquidCrystal/LiquidCrystal_I2C as the definition of 'device', g++, CPython. The theorems are about the models; the correspondence bounds their distance from LCD.py / emitter.py / parser.py. Text is ASCII; binary64 noise at exact .5 ties of the progress ratio is outside the model.",
+    "level_text": "Theorems C17_* (coq/Props/C17.v) are proved for all ASCII texts, alignments, clear flags, in-range rows/columns, all histories of guarded calls and all geometries that fit one HD44780 about Gallina models of Displays/LCD.py and of the emitted LCD C++ (helper templates + per-node code, texts as UTF-8 bytes) on the mock LiquidCrystal DDRAM: per-call and per-history refinement (cells, backlight level, glyph table), never-off-row for every call kind on both sides, the four progress-bar laws, the backlight pin invariant over every firmware history, glyph rows; five refutations with witnesses (one-row message, progress width <= 0 / max <= 0, geometries that alias rows, non-ASCII text) replayed on the real code; the style/alignment tables of host, parser and emitter are regenerated from the source (Gen/LcdTables.v) and proved to agree. Both models are run against the real LCD object and the real parse+emit output compiled with g++ on generated op sequences (geometry sweep 1..40 x 1..4, both wirings), and the property relation is evaluated directly firmware-vs-host.",
+    "level_note": "Trusted: Coq kernel, extraction, OCaml driver, mock Arduino core + mock LiquidCrystal/LiquidCrystal_I2C as the definition of 'device', g++, CPython. The theorems are about the models; the correspondence bounds their distance from LCD.py / emitter.py / parser.py. Text inside the guard is ASCII; binary64 noise at exact .5 ties of the progress ratio is outside the model.",
     "design_ref": "DESIGN.md section 4 C17",
 }
 
